@@ -854,6 +854,103 @@ example : eval 5 ([argFrame [.int 9] [], { vars := [(['$', 'k'], .int 0)] }] ++ 
       ({ vars := [(['$', 'e'], .int 4)] } : Frame) :: [{}]) (.var ['$', 'e']) = .ok (.val (.int 4)) :=
   host_var_visible 4 _ _ _ _ ['$', 'e'] (.int 4) (by decide) (by decide) rfl rfl
 
+/-! ## arguments passed by keyword
+
+How an argument is passed changes nothing about what it means: `Expr.positional` moves every keyword
+argument of a builtin method to the position of the parameter of that name (the name the default
+convention gives it: `keySelector`, not `key_selector`), and the program is evaluated in that form
+(`runKw`).  So a lambda passed by keyword is the lambda passed positionally - lazy, applied in a child
+of the call's context, its `$` the argument of the innermost application (`lambda_binds_innermost`
+and the other lambda theorems then speak about it). -/
+
+abbrev kwKeySelector : Name := ['k', 'e', 'y', 'S', 'e', 'l', 'e', 'c', 't', 'o', 'r']
+abbrev kwValueSelector : Name := ['v', 'a', 'l', 'u', 'e', 'S', 'e', 'l', 'e', 'c', 't', 'o', 'r']
+abbrev kwSelector : Name := ['s', 'e', 'l', 'e', 'c', 't', 'o', 'r']
+abbrev kwPredicate : Name := ['p', 'r', 'e', 'd', 'i', 'c', 'a', 't', 'e']
+
+/-- `xs.toDict(keySelector => k, valueSelector => v)`, the same with the keywords the other way round, and
+    `xs.toDict(k, valueSelector => v)` are `xs.toDict(k, v)` -/
+theorem toDict_by_keyword (e k v : Expr) :
+    (Expr.method e .toDict [] [(.kw kwKeySelector, k), (.kw kwValueSelector, v)]).positional =
+      .method e.positional .toDict [k.positional, v.positional] [] ∧
+    (Expr.method e .toDict [] [(.kw kwValueSelector, v), (.kw kwKeySelector, k)]).positional =
+      .method e.positional .toDict [k.positional, v.positional] [] ∧
+    (Expr.method e .toDict [k] [(.kw kwValueSelector, v)]).positional =
+      .method e.positional .toDict [k.positional, v.positional] [] ∧
+    (Expr.method e .toDict [] [(.kw kwKeySelector, k)]).positional = .method e.positional .toDict [k.positional] [] := by
+  refine ⟨?_, ?_, ?_, ?_⟩ <;> simp [Expr.positional, positionalL, positionalP, placeMethod, kwParams, kwName, placeKw,
+    noGap, provided, nodup, List.mapM_cons, List.mapM_nil]
+
+/-- a lambda passed by keyword IS the lambda passed positionally -/
+theorem lambda_by_keyword (e b : Expr) :
+    (Expr.method e .select [] [(.kw kwSelector, b)]).positional = .method e.positional .select [b.positional] [] ∧
+    (Expr.method e .where_ [] [(.kw kwPredicate, b)]).positional = .method e.positional .where_ [b.positional] [] ∧
+    (Expr.method e .orderBy [] [(.kw kwSelector, b)]).positional = .method e.positional .orderBy [b.positional] [] := by
+  refine ⟨?_, ?_, ?_⟩ <;> simp [Expr.positional, positionalL, positionalP, placeMethod, kwParams, kwName, placeKw,
+    noGap, provided, nodup, List.mapM_cons, List.mapM_nil]
+
+/-- ... hence inside it `$` is the element it is applied to, whatever `$` is outside: evaluated, a `select`
+    whose selector is passed by keyword maps the selector over the elements, each application in a child
+    `argFrame [x] [] :: C` of the call's context -/
+theorem select_by_keyword (n : Nat) (C : Ctx) (e b : Expr) (r : Obj) (xs : VL) (er : Option Err)
+    (hr : eval n C e.positional = .ok r) (hit : toIter r = some (xs, er)) :
+    eval (n + 1) C (Expr.method e .select [] [(.kw kwSelector, b)]).positional =
+      (do let s ← mapL (fun x => do let o ← eval n (argFrame [x] [] :: C) b.positional; toV o) xs er
+          pure (.lazy s.1 s.2)) := by
+  rw [(lambda_by_keyword e b).1]
+  simp only [eval_succ, step, hr, ok_bind, List.isEmpty_nil, Bool.not_true, Bool.false_eq_true, if_false]
+  unfold callMethod
+  simp [hit]
+  rfl
+
+/-- a keyword that names no parameter (also: the PYTHON name `key_selector`, a positional argument named
+    again) matches no overload: the receiver is evaluated, then NoMatchingMethodException -/
+theorem noOverload_raises (n : Nat) (C : Ctx) (e : Expr) (f : Fn) (ps : List (Name × Bool)) (r : Obj)
+    (hf : kwParams f = some ps) (hr : eval n C e = .ok r) :
+    eval (n + 1) C (noOverload e f) = .error .noMethod := by
+  simp only [noOverload, eval_succ, step, hr, ok_bind, List.isEmpty_nil, Bool.not_true, Bool.false_eq_true, if_false]
+  cases f <;> simp [kwParams] at hf <;> rfl
+
+example : (Expr.method (.var ['$']) .toDict [] [(.kw ['k', 'e', 'y', '_', 's', 'e', 'l', 'e', 'c', 't', 'o', 'r'], .var ['$'])]).positional =
+    noOverload (.var ['$']) .toDict := rfl
+
+mutual
+/-- a program that passes no argument of a method by keyword is evaluated as it is -/
+theorem positional_id : ∀ e : Expr, NoKw e → e.positional = e
+  | .lit _, _ => rfl
+  | .kw _, _ => rfl
+  | .var _, _ => rfl
+  | .list es, h => by simp only [Expr.positional, positionalL_id es h]
+  | .map kvs, h => by simp only [Expr.positional, positionalP_id kvs h]
+  | .index e args, h => by simp only [Expr.positional, positional_id e h.1, positionalL_id args h.2]
+  | .un _ e, h => by simp only [Expr.positional, positional_id e h]
+  | .bin _ a b, h => by simp only [Expr.positional, positional_id a h.1, positional_id b h.2]
+  | .arrow l r, h => by simp only [Expr.positional, positional_id l h.1, positional_id r h.2]
+  | .member e _, h => by simp only [Expr.positional, positional_id e h]
+  | .call _ args kw, h => by simp only [Expr.positional, positionalL_id args h.1, positionalP_id kw h.2]
+  | .ucall _ args kw, h => by simp only [Expr.positional, positionalL_id args h.1, positionalP_id kw h.2]
+  | .method e f args kw, h => by
+    obtain ⟨h1, h2, h3⟩ := h
+    subst h3
+    simp only [Expr.positional, positional_id e h1, positionalL_id args h2, positionalP, placeMethod]
+  | .umethod e _, h => by simp only [Expr.positional, positional_id e h]
+theorem positionalL_id : ∀ es : List Expr, NoKwL es → positionalL es = es
+  | [], _ => rfl
+  | e :: es, h => by simp only [positionalL, positional_id e h.1, positionalL_id es h.2]
+theorem positionalP_id : ∀ ps : List (Expr × Expr), NoKwP ps → positionalP ps = ps
+  | [], _ => rfl
+  | (k, v) :: r, h => by simp only [positionalP, positional_id k h.1, positional_id v h.2.1, positionalP_id r h.2.2]
+end
+
+-- the demos of seeded change C04-12 on the model: the selectors see THEIR element, not the caller's `$`
+example : runKw 30 [] 0 (.tuple [.dict [(.str ['k'], .str ['a']), (.str ['v'], .int 1)], .dict [(.str ['k'], .str ['b']), (.str ['v'], .int 2)]])
+    (.method (.var ['$']) .toDict [] [(.kw kwKeySelector, .member (.var ['$']) ['k']), (.kw kwValueSelector, .member (.var ['$']) ['v'])]) =
+    .ok (.data (.dict [(.str ['a'], .int 1), (.str ['b'], .int 2)])) := rfl
+example : runKw 30 [] 0 (.tuple [.tuple [.int 1, .int 2], .tuple [.int 3]])
+    (.method (.var ['$']) .select [.method (.var ['$']) .toDict [] [(.kw kwKeySelector, .var ['$']),
+      (.kw kwValueSelector, .bin .mul (.var ['$']) (.lit (.int 10)))]] []) =
+    .ok (.data (.list [.dict [(.int 1, .int 10), (.int 2, .int 20)], .dict [(.int 3, .int 30)]])) := rfl
+
 /-! ## frame: evaluation hands back no modified version of a pre-existing context
 
 Contexts are values here, so "a context that existed before is unchanged" cannot even be said
